@@ -219,13 +219,13 @@ def gen_point_first(rng, hid, rounds=2, n_filters=2):
     for rnd in range(rounds):
         # writes: X and the others create trials, anybody finishes / changes unfinished ones
         to_create = r.randint(2, 3) if rnd == 0 else r.randint(1, 2)
-        while to_create or (b.open and r.random() < 0.55):
+        while to_create or (b.open and r.random() < 0.7):
             y = r.random()
             if to_create and (y < 0.5 or not b.open):
-                c = x if r.random() < 0.4 else r.choice(others)
+                c = x if r.random() < 0.5 else r.choice(others)
                 z = r.random()
-                tm = _finished_tm(r) if z < 0.15 else None
-                if z > 0.88:
+                tm = _finished_tm(r) if z < 0.1 else None
+                if z > 0.92:
                     tm = dict(_finished_tm(r), state="WAITING", values=sd.NONE_V, ts=0, tc=0)
                 b.create(c, tm)
                 to_create -= 1
@@ -238,16 +238,17 @@ def gen_point_first(rng, hid, rounds=2, n_filters=2):
             elif b.decoy:
                 b.add({"a": "create_trial", "s": b.decoy, "tm": {"has": 0}}, r.choice([0, 1, 2]))
                 b.nT += 1
-        # point reads by X: any kind, any order, trials X has seen and trials it has not
-        for _ in range(r.randint(2, 5)):
-            kind = r.choice(POINT_KINDS + ["get_trial", "get_trial"])
-            t = r.choice(b.main_trials) if r.random() < 0.93 else r.choice([0, 1])
+        # point reads by X: every trial of the study (seen by X or not) is read once, in any order, by any kind of
+        # point read; a few more aim at the decoy study's trial, at ids / numbers nobody has, and at the study itself
+        targets = r.sample(b.main_trials, len(b.main_trials)) + [r.choice([0, 1]) for _ in range(r.randint(0, 2))]
+        for t in targets:
+            kind = r.choice(POINT_KINDS + ["get_trial"] * 4)          # get_trial is what Study / Trial objects use most
             b.add(_point(r, kind, b.main, t, b.number(t)), x)
         # and only then bulk reads
         for f in r.sample(FILTERS, min(n_filters, len(FILTERS))):
             b.add(_bulk(r, b.main, f), x)
     b.tail()
-    return {"hid": f"pf{hid}", "ops": b.ops}
+    return {"hid": f"pf{hid}", "ops": b.ops, "post_getters": 0}
 
 
 def enum_point_first(rng):
@@ -273,7 +274,7 @@ def enum_point_first(rng):
                             b.add(_bulk(r, b.main, f), x)
                         b.tail()
                         out.append({"hid": f"pfe-x{x}e{early}d{int(decoy)}-{''.join(map(str, creators))}-"
-                                           f"{''.join(map(str, fin))}-{kind}-{target}", "ops": b.ops})
+                                           f"{''.join(map(str, fin))}-{kind}-{target}", "ops": b.ops, "post_getters": 0})
     return out
 
 
@@ -293,8 +294,11 @@ def run_history(kind, h, workdir):
             ev["ret"] = ret
             if raw is not None:
                 ev["raw"] = raw
-            ev["p"] = 1
-            ev["post"] = obs.post()          # what the underlying storage holds, read without any client cache
+            if h.get("post_getters", 1) or not op["a"].startswith("get_"):
+                ev["p"] = 1
+                ev["post"] = obs.post()      # what the underlying storage holds, read without any client cache
+            else:
+                ev["p"] = 0                  # a read directly after a judged state: replies are judged on that state
             events.append(ev)
         return {"config": kind, "hid": h["hid"], "ev": events}
     finally:
@@ -358,7 +362,10 @@ def run(ctx):
     ctx.rule = ("interleaved histories of three clients of one database (two caching/proxying, one raw; SQLite file or one "
                 "gRPC server over in-memory / journal / SQLite), several studies sharing the id space, trials finishing out "
                 "of creation order, finished templates; after EVERY call the call's reply and the database state read by an "
-                "uncached observer are validated by TLC against the Storage contract on the one shared state; distinct = "
+                "uncached observer are validated by TLC against the Storage contract on the one shared state; plus the "
+                "family 'point reads before bulk reads' (other clients create and partly finish trials, the caching client "
+                "reads every trial singly -- seen or unseen, any kind of point read, any order -- and only then lists the "
+                "study with state filters, in rounds, and again after everything was finished); distinct = "
                 "distinct (group, sequence of (call, client, target)) histories in which at least two clients act")
     r = tlc.require_model("CacheSync", "CacheSync_q2",
                           must_cover=["Create", "Write", "ReadAll", "ReadOne"], timeout=3000)
@@ -368,11 +375,23 @@ def run(ctx):
         ctx.model(r, "CacheSync_q")
     r = tlc.expect_violation("CacheSync", "CacheSync_f3", "ViewEqualsBackend", timeout=600)
     ctx.model(r, "CacheSync_f3 (pre-repair create_new_trial: expected to violate ViewEqualsBackend)")
+    r = tlc.expect_violation("CacheSync", "CacheSync_pr", "ViewEqualsBackend", timeout=600)
+    ctx.model(r, "CacheSync_pr (get_trial keeps a finished row and advances the watermark: expected to violate "
+                 "ViewEqualsBackend)")
     n_slow, n_fast = (60, 200) if ctx.quick else (600, 2500)
+    n_pf = ({"rdb3": 64, "grpc_rdb": 16, "grpc_inmemory": 90, "grpc_journal": 60} if ctx.quick else
+            {"rdb3": 600, "grpc_rdb": 300, "grpc_inmemory": 2500, "grpc_journal": 1000})
+    prng = random.Random(ctx.seed * 7919 + 8)        # own stream: the interleaved histories of a seed stay what they were
+    pfe = [] if ctx.quick else enum_point_first(prng)
     tasks = []
     for kind in GROUPS:
         n = n_slow if kind in RDB_LIKE else n_fast
         hs = [gen_history(ctx.rng, i) for i in range(n)] + [F3_HISTORY, K5_HISTORY]
+        if ctx.quick:
+            hs += [gen_point_first(prng, i) for i in range(n_pf[kind])]
+        else:
+            hs += [gen_point_first(prng, i, rounds=3, n_filters=len(FILTERS)) for i in range(n_pf[kind])]
+            hs += pfe if kind in ("rdb3", "grpc_inmemory") else prng.sample(pfe, 400)
         per = 8 if kind in RDB_LIKE else 30
         tasks += [(kind, hs[i:i + per]) for i in range(0, len(hs), per)]
     traces = []
